@@ -3,7 +3,8 @@ C12 — model of the Tweedie GLM of `linfa-linear` (algorithms/linfa-linear/src/
 
 * `TweedieDistribution::{new, in_range, unit_deviance, unit_deviance_derivative}` → `powerClass`,
   `inRange`, `unitDeviance`, `unitDevianceDeriv`
-* `Link::{inverse, inverse_derviative}` → `linkInverse`, `linkInverseDeriv`
+* `Link::{inverse, inverse_derviative, link, link_derivative}` → `linkInverse`, `linkInverseDeriv`, `linkFn`, `linkFnDeriv`;
+  the default link of `TweedieRegressorValidParams::link()` → `selectLink`
 * `TweedieProblem::{ypred, cost, gradient}` → `ypred`, `cost`, `gradient` (parameter vector with the
   intercept FIRST when `fit_intercept`)
 
@@ -86,6 +87,29 @@ def linkInverseDeriv (l : Link) (x : α) : α :=
   | .identity => 1
   | .log => Transc.exp x
   | .logit => let e := 1 / (1 + Transc.exp (-x)); e * (1 - e)
+
+/-- `Link::link` (forward direction; feeds the start intercept `link(mean(y))` of `fit`) -/
+def linkFn (l : Link) (x : α) : α :=
+  match l with
+  | .identity => x
+  | .log => Transc.ln x
+  | .logit => Transc.ln (x / (1 - x))
+
+/-- `Link::link_derivative`; `lb` is the literal `1e-7` below which the log link's derivative is capped -/
+def linkFnDeriv (lb : α) (l : Link) (x : α) : α :=
+  match l with
+  | .identity => 1
+  | .log => if x < lb then 1 / lb else 1 / x
+  | .logit => 1 / (x * (1 - x))
+
+/-- the default of `TweedieRegressorValidParams::link()` when no link was set: identity for `power <= 0`, log otherwise -/
+def defaultLink (power : α) : Link := if power ≤ 0 then .identity else .log
+
+/-- `TweedieRegressorValidParams::link()` -/
+def selectLink (chosen : Option Link) (power : α) : Link :=
+  match chosen with
+  | some l => l
+  | none => defaultLink power
 
 /-- `(coefficients, intercept)` of the parameter vector (intercept first) -/
 def splitP (icpt : Bool) (p : List α) : List α × α :=
